@@ -183,11 +183,13 @@ class ResourceServiceClient:
                     log.warning('Resource %r does not exist', rsrc_id)
                     return
                 raise
-            self._serviceinst.clt_del_request(svc_req_uuid)
+            # Retire the request directory first: if interrupted in between,
+            # get() must not return the resources of a deleted request.
             os.rename(
                 req_dir,
                 self._bck_dirname(svc_req_uuid)
             )
+            self._serviceinst.clt_del_request(svc_req_uuid)
 
     def get(self, rsrc_id):
         """Get the result of a resource request.
